@@ -55,6 +55,7 @@ pub struct OStats {
     pub refresh_queries: u64,
     pub truncated_accepted: u64,
     pub announcements_judged: u64,
+    pub replies_in_several_datagrams: u64,
     pub tokio_windows: u64,
     pub tokio_replies_judged: u64,
     pub tokio_known_exact: u64,
@@ -73,7 +74,7 @@ impl OStats {
             ingest_filtered_own, ingest_filtered_foreign, known_exact, known_exact_nonempty, known_safety_only,
             known_with_expired_entries, discovered_judged, discovered_skipped, dumps_judged, dump_entries,
             dumps_with_expired, c16_instances, c16_dump_checks, probes_sent, probes_answered, probes_excluded,
-            api_probes, resolver_probes, panics_seen, refresh_queries, truncated_accepted, announcements_judged, tokio_windows, tokio_replies_judged, tokio_known_exact, tokio_ingests, ipv6_ingests, ipv6_replies_judged);
+            api_probes, resolver_probes, panics_seen, refresh_queries, truncated_accepted, announcements_judged, replies_in_several_datagrams, tokio_windows, tokio_replies_judged, tokio_known_exact, tokio_ingests, ipv6_ingests, ipv6_replies_judged);
     }
 }
 
@@ -488,6 +489,7 @@ pub fn analyse(sc: &Scenario, out: &RunOutput) -> Analysis {
 
     // ---- walk the trace
     let mut findings_extra: Vec<Finding> = Vec::new();
+    let mut announced: HashMap<(u32, u32), BTreeSet<RecKey>> = HashMap::new();
     let mut pending: HashMap<u32, Pending> = HashMap::new();
     let mut windows: HashMap<u32, Window> = HashMap::new();
     let mut dgram_exact: HashMap<u32, bool> = HashMap::new();
@@ -531,8 +533,10 @@ pub fn analyse(sc: &Scenario, out: &RunOutput) -> Analysis {
                         }
                     }
                     if ok_sends.len() > 1 {
-                        push("C13", "several-replies".into(), format!("node {}: {} datagrams sent for one query", node, ok_sends.len()));
+                        // a reply may be split over several datagrams: their union is the reply
+                        st.replies_in_several_datagrams += 1;
                     }
+                    let mut union_rep: Option<Msg> = None;
                     for (_, d, _) in ok_sends {
                         st.replies_judged += 1;
                         if is_tokio {
@@ -552,10 +556,28 @@ pub fn analyse(sc: &Scenario, out: &RunOutput) -> Analysis {
                         if dg.dst != want_dst {
                             push("C13", if exp.unicast { "unicast-not-honoured".into() } else { "unicast-not-requested".into() }, format!("node {}: reply to query {} sent to {} but {} expected (unicast requested: {})", node, exp.id, dg.dst, want_dst, exp.unicast));
                         }
-                        for f in judge_reply(&format!("node {}", node), exp, q, &rep) {
-                            push(f.prop, f.sig, f.detail);
+                        if rep.id != exp.id {
+                            push("C13", "wrong-id".into(), format!("node {}: reply id {} for query id {}", node, rep.id, exp.id));
+                        }
+                        if !rep.is_response() {
+                            push("C13", "response-flag-missing".into(), format!("node {}: reply to query {} lacks the QR bit", node, exp.id));
+                        }
+                        match &mut union_rep {
+                            None => union_rep = Some(rep),
+                            Some(u) => {
+                                u.answers.extend(rep.answers);
+                                u.additional.extend(rep.additional);
+                            }
                         }
                         st.replies_expected_and_seen += 1;
+                    }
+                    if let Some(u) = &union_rep {
+                        let mut u2 = u.clone();
+                        u2.id = exp.id;
+                        u2.flags |= 0x8000;
+                        for f in judge_reply(&format!("node {}", node), exp, q, &u2) {
+                            push(f.prop, f.sig, f.detail);
+                        }
                     }
                 }
             }
@@ -898,6 +920,7 @@ pub fn analyse(sc: &Scenario, out: &RunOutput) -> Analysis {
                                 if let Ok(msg) = refdns::decode(&dg.bytes, true) {
                                     if msg.is_response() {
                                         st.announcements_judged += 1;
+                                        announced.entry((node, m.inc)).or_default().extend(msg.answers.iter().chain(msg.additional.iter()).map(|r| r.key().norm()));
                                         judge_announcement(node, m, instance, *ttl, &msg, &mut findings_extra);
                                     }
                                 }
@@ -925,6 +948,7 @@ pub fn analyse(sc: &Scenario, out: &RunOutput) -> Analysis {
                             if let Ok(msg) = refdns::decode(&dg.bytes, true) {
                                 if msg.is_response() {
                                     st.announcements_judged += 1;
+                                    announced.entry((node, m.inc)).or_default().extend(msg.answers.iter().chain(msg.additional.iter()).map(|r| r.key().norm()));
                                     judge_announcement(node, m, instance, *ttl, &msg, &mut findings_extra);
                                 }
                             }
@@ -1113,6 +1137,15 @@ pub fn analyse(sc: &Scenario, out: &RunOutput) -> Analysis {
         }
     }
 
+    for ((node, inc), set) in &announced {
+        let m = &models[*node as usize];
+        if m.inc != *inc {
+            continue;
+        }
+        if let NodeKind::Discovery { instance, ttl, .. } = &sc.nodes[*node as usize].kind {
+            judge_announced_union(*node, m, instance, *ttl, set, &mut findings_extra);
+        }
+    }
     findings.extend(findings_extra);
     findings.sort_by(|a, b| (a.prop, &a.sig).cmp(&(b.prop, &b.sig)));
     findings.dedup_by(|a, b| a.prop == b.prop && a.sig == b.sig);
@@ -1209,19 +1242,24 @@ fn compare_instances(prop: &'static str, what: &str, node: u32, exp: &[InstObs],
 /// application described (plus, at most, the service PTR pointing at it).
 fn judge_announcement(node: u32, m: &NodeModel, instance: &crate::scenario::InstSpec, ttl: u32, msg: &Msg, out: &mut Vec<Finding>) {
     let want: BTreeSet<RecKey> = instance_records(&m.service, instance, ttl, false).iter().map(|r| r.key().norm()).collect();
-    let ptr = refdns::Rec { owner: m.service.clone(), rtype: t::PTR, class: 1, cache_flush: false, ttl, fields: vec![refdns::F::Name(m.instance_full.clone(), refdns::Comp::Must)] }.key().norm();
-    let got: BTreeSet<RecKey> = msg.answers.iter().map(|r| r.key().norm()).filter(|k| *k != ptr).collect();
-    for k in want.difference(&got) {
-        out.push(Finding { prop: "C15", sig: "announce:record-missing".into(), detail: format!("node {}: the announcement of instance {:?} lacks its {} record (type {}, rdata {:?})", node, instance.name, name_to_string(&k.owner), k.rtype, String::from_utf8_lossy(&k.rdata)) });
-    }
-    for k in got.difference(&want) {
-        out.push(Finding { prop: "C15", sig: "announce:record-unexpected".into(), detail: format!("node {}: the announcement of instance {:?} carries {} type {} rdata {:?} which the application did not describe", node, instance.name, name_to_string(&k.owner), k.rtype, String::from_utf8_lossy(&k.rdata)) });
-    }
-    for a in &msg.additional {
-        let k = a.key().norm();
-        if !want.contains(&k) {
-            out.push(Finding { prop: "C15", sig: "announce:record-unexpected".into(), detail: format!("node {}: the announcement of instance {:?} carries additional record {} type {} which the application did not describe", node, instance.name, name_to_string(&k.owner), k.rtype) });
+    // only records a discoverer would ingest and turn into reported data can be "unexpected":
+    // addresses, ports and attributes under the watched service. Anything else an
+    // implementation chooses to add (PTR, NSEC, ...) does not change what is reported.
+    let affects = |k: &RecKey| matches!(k.rtype, t::A | t::AAAA | t::SRV | t::TXT) && is_strict_subdomain(&k.owner, &m.service);
+    for rr in msg.answers.iter().chain(msg.additional.iter()) {
+        let k = rr.key().norm();
+        if affects(&k) && !want.contains(&k) {
+            out.push(Finding { prop: "C15", sig: "announce:record-unexpected".into(), detail: format!("node {}: the announcement of instance {:?} carries {} type {} rdata {:?} which the application did not describe", node, instance.name, name_to_string(&k.owner), k.rtype, String::from_utf8_lossy(&k.rdata)) });
         }
+    }
+}
+
+/// The union of everything a node announced must cover the instance its application described
+/// (an implementation may split its announcement over several datagrams).
+fn judge_announced_union(node: u32, m: &NodeModel, instance: &crate::scenario::InstSpec, ttl: u32, announced: &BTreeSet<RecKey>, out: &mut Vec<Finding>) {
+    let want: BTreeSet<RecKey> = instance_records(&m.service, instance, ttl, false).iter().map(|r| r.key().norm()).collect();
+    for k in want.difference(announced) {
+        out.push(Finding { prop: "C15", sig: "announce:record-missing".into(), detail: format!("node {}: no announcement of instance {:?} carried its {} record (type {}, rdata {:?})", node, instance.name, name_to_string(&k.owner), k.rtype, String::from_utf8_lossy(&k.rdata)) });
     }
 }
 
